@@ -99,7 +99,10 @@ FIRST.update({"C03-o": "analysis errors (grammar analysis with a defaultdict sub
               "C16-o": "analysis errors (C15.R2: method of an annotated helper object; C16.R1: helper class not instantiated)", "C16-p": "analysis error (C15.R2p: boundaries paired with itertools.pairwise into NamedTuples)",
               "C19-o": "false alarm (C19.R4: a decorator factory - the result of a call was not called)", "C19-p": "relocated known defect + analysis error (C19.R5: per-call method object)",
               "C20-o": "analysis error (csv.DictWriter: C20 anchor)", "C20-p": "silent",
-              "C08-o": "analysis error (C12.R3: result read through a table of callables)", "C08-p": "relocated known defect + analysis errors"})
+              "C08-o": "analysis error (C12.R3: result read through a table of callables)", "C08-p": "relocated known defect + analysis errors",
+              "C15-o": "analysis error (C15.R2p floor)", "C15-p": "false alarm (C01.R2: 'yield from chain.from_iterable(<generator>)') + analysis errors",
+              "C07-o": "relocated known defects (a shared codon-mapped base class) + analysis errors",
+              "C07-p": "false alarm (C01.R1: an unknown result of the stack model read as a wrong result) + relocated known defect + analysis errors"})
 os.makedirs(DST, exist_ok=True)
 for p in sorted(glob.glob("/tmp/benign6_out/C*/[ab]/patch.diff")):
     src = os.path.dirname(p)
